@@ -302,7 +302,9 @@ func (c *FCtx) checkPost(e *Env, st *State, tag string, pos token.Pos) {
 			if label == "" {
 				label = fmt.Sprintf("%d", i+1)
 			}
-			g := c.evalSpecTerm(e, en.Expr, st, c.entry, extra)
+			pse := c.specEnvFor(e, st, c.entry, extra)
+			pse.GoalOnly = en.Local
+			g := pse.evalBool(en.Expr)
 			c.oblige(st, "post", fmt.Sprintf("post(%s)#%s", label, tag), pos, g, en.Text)
 		}
 	}
